@@ -2,8 +2,8 @@
    Proved: a validator wf_emd (the Coq twin of the harness's h5py-only validator) accepts every file a fresh save of a
    whole tree produces and every file an append (C09's union) leaves; plus the individual layout facts (valid tags on
    every node group, tagged bundles of tagged typed items, the header passing the package detector, the bundle
-   created by the append path tagged, no scratch group after a replace: C09/C18).  PARTIAL: partial saves, emdpath
-   appends, append-over and list saves are validated on real files by the harness after every successful save of
+   created by the append path tagged, no scratch group after a replace: C09/C18).  PARTIAL: emdpath appends,
+   append-over and list saves are validated on real files by the harness after every successful save of
    every scenario, not by a theorem. *)
 From Emd Require Import Base.Prelude Model.H5 Model.Emd Generated.Tables Proofs.PTree Proofs.P05 Proofs.P20 Proofs.PRead Proofs.PUnion Proofs.PWf.
 From Emd Require Generated.Version.
@@ -65,6 +65,24 @@ Proof.
   apply (wf_whole_file c root Hc Hp).
 Qed.
 Print Assumptions C05_a_saved_whole_tree_passes_the_validator.
+
+(* ... and every partial save into a fresh file (node alone / node with its branch / the branch below the node): each
+   such file is the file of a smaller tree *)
+Theorem C05_every_partial_save_passes_the_validator :
+  forall c root tp data tr f,
+    rcls root = CRoot -> plain_tree root -> tp <> [] -> rwalk root tp = Some data -> ok_tree data ->
+    ~ In (rname data) (keys (shallow_links root)) ->
+    (forall k, In k (rkids data) -> ~ In (rname k) (keys (shallow_links root))) ->
+    fresh_file c root tp tr = Ok f -> wf_emd c f = true.
+Proof.
+  intros c root tp data tr f Hc Hp Hne Hw Hok Hn Hk Hf.
+  destruct (wf_partial_saves c root tp data Hc Hp Hne Hw) as (A & B & C).
+  destruct tr as [[|]|].
+  - rewrite (partial_save_node_and_branch c root tp data Hc Hne Hw Hn Hok) in Hf. injection Hf as <-. exact B.
+  - rewrite (partial_save_node_alone c root tp data Hc Hne Hw Hn) in Hf. injection Hf as <-. exact A.
+  - rewrite (partial_save_branch_only c root tp data Hc Hne Hw Hok Hk) in Hf. injection Hf as <-. exact C.
+Qed.
+Print Assumptions C05_every_partial_save_passes_the_validator.
 
 (* ... and so does the file an append leaves (any append mode, whole runtime tree, same root; hypotheses of C09's union) *)
 Theorem C05_the_file_after_an_append_passes_the_validator :
